@@ -178,4 +178,30 @@ def genC19 (tier : Tier) (seed : Nat) (o : Out) : IO Unit := do
     r := rr
     o.line (multiCase "multi" ss)
 
+/-- cases for the real binary (procrun/c19_args.py): 1–4 `-G` options whose paths are the scratch generators `g1`…`g4`
+    (written with random surrounding whitespace) and whose argument lists are random; the expectation is the model's
+    parse of each specification, i.e. what each generator must find behind the request: `gens <fam> <spec|spec…> <ok path args|…>` -/
+def genC19g (tier : Tier) (seed : Nat) (o : Out) : IO Unit := do
+  let genWs := G19.genWs
+  let genArgs := G19.genArgs
+  let n := if tier == .thorough then 600 else 120
+  let mut r := Rng.mk' (seed + 1919)
+  for i in [0:n] do
+    let (k, r1) := r.below 4
+    r := r1
+    let mut ss : List (List Char) := []
+    for j in [0:k + 1] do
+      let (pre, r2) := genWs r
+      let (post, r3) := genWs r2
+      let (m, r4) := r3.below 4
+      -- the first scenarios use plain arguments, later ones the whole repertoire (escapes, Unicode, blanks)
+      let (as, r5) := if i < 20 then (([(['k', Char.ofNat (48 + j)], ['v']), (['f'], [])].take m : List Arg), r4) else genArgs false m r4
+      let (bare, r6) := r5.below 2
+      let (tc, r7) := r6.below 3
+      r := r7
+      let p := pre ++ ['.', '/', 'g', Char.ofNat (49 + j)] ++ post
+      let spec := if bare == 0 then render p as else renderBare p as
+      ss := ss ++ [if tc == 0 then spec ++ [','] else spec]
+    o.line ((G19.multiCase "gens" ss).replace "multi\tgens" "gens\tgens")
+
 end Slicec.Drv
